@@ -120,6 +120,18 @@ def check_pairs(acc: Acc, name: str, grid: list[float], exact_grid: bool, lattic
         variants.append(("scalar-array", outcome(lambda: impl.compute(a, g)), M[i, :], i))
         variants.append(("array-scalar", outcome(lambda: impl.compute(g, a)), M[:, i], i))
         variants.append(("0d-array", outcome(lambda: impl.compute(np.array(a), g)), M[i, :], i))
+    # constant operands of another shape (an all-zero / all-one operand next to a scalar) and one-element arrays:
+    # the result has the broadcast shape whatever the values are
+    for i, a in enumerate(grid):
+        for j, b in enumerate(grid):
+            if not (i == j or a in (0.0, 1.0) or b in (0.0, 1.0)):
+                continue
+            w = M[i, j]
+            variants.append(("scalar-constant-array", outcome(lambda: impl.compute(a, np.full(3, b))), np.full(3, w), i))
+            variants.append(("constant-array-scalar", outcome(lambda: impl.compute(np.full(3, a), b)), np.full(3, w), i))
+            variants.append(("column-constant-row", outcome(lambda: impl.compute(np.full((2, 1), a), np.full(3, b))), np.full((2, 3), w), i))
+            variants.append(("one-element-arrays", outcome(lambda: impl.compute(np.array([a]), np.array([b]))), np.full(1, w), i))
+            variants.append(("one-element-array-scalar", outcome(lambda: impl.compute(np.array([[a]]), b)), np.full((1, 1), w), i))
     for kind, got, want_arr, i in variants:
         acc.cls("broadcast_calls")
         if isinstance(got, str) or not same_arrays(got, want_arr):
